@@ -387,6 +387,10 @@ async fn stub_mdns(matter: &Matter<'_>) -> ! {
         };
         // Device node ids encode the simulated node index
         let dev = (*node_id & 0xffff) as usize;
+        if dev >= 50 {
+            // A node which does not exist: the query was taken up but nothing ever answers it
+            continue;
+        }
         let Address::Udp(SocketAddr::V6(sock)) = net::node_addr(dev) else {
             continue;
         };
